@@ -231,6 +231,8 @@ def translate(cfg, outdir):
         em.stop_at_call = u.get("stop_at_call")
         try:
             sig, text, unit = em.emit_function(node, cname, cls if node["kind"] != "FunctionDecl" else None, static)
+        except Unsupported as e:
+            raise Unsupported("%s [unit %s]" % (e, u["name"]))
         finally:
             em.stop_at_call = None
         em.unit_names.add(cname)
